@@ -116,9 +116,86 @@ def families():
     return out
 
 
+def long_history():
+    """a long history (N*T well above 4 million entries): every sample, including the most recent ones, follows the formula"""
+    rng = np.random.RandomState(11)
+    T, n = 72, 1024
+    betas = np.r_[np.zeros(3), np.sort(rng.uniform(0, 1, T - 5)), 1.0, 1.0]
+    sm = StateManager(1)
+    ls, zs = [], []
+    for t in range(T):
+        logl = rng.randn(n) * 3.0 - 5.0 * betas[t]
+        z = rng.randn() * 0.5
+        sm.update_current({"u": np.zeros((n, 1)), "x": np.zeros((n, 1)), "logl": logl, "beta": float(betas[t]), "logz": float(z)})
+        sm.commit_current_to_history()
+        ls.append(logl)
+        zs.append(z)
+    l = np.concatenate(ls)
+    for bf in (1.0, 0.4):
+        lw, lz = sm.compute_logw_and_logz(bf)
+        comp = l[:, None] * betas[None, :] - np.asarray(zs)[None, :] + np.log(np.full(T, n) / (T * n))[None, :]
+        mx = comp.max(1)
+        lmix = mx + np.log(np.exp(comp - mx[:, None]).sum(1))
+        u = bf * l - lmix
+        L = u.max() + np.log(np.exp(u - u.max()).sum())
+        if len(lw) != len(u) or not np.all(np.isfinite(lw)):
+            return f"long history (T={T}, N={T * n}): {len(lw)} weights / non-finite values"
+        dev = np.abs(lw - (u - L))
+        if dev.max() > 1e-8:
+            i = int(np.argmax(dev))
+            return (f"long history (T={T}, N={T * n}, beta={bf}): log-weight of sample {i} (iteration {i // n}) deviates from the balance-heuristic "
+                    f"formula by {dev.max():.3g}")
+        if abs(lz - (L - np.log(T * n))) > 1e-8:
+            return f"long history: logz {lz} != log mean unnormalised weight {L - np.log(T * n)}"
+    return None
+
+
+def restored_history():
+    """the weights follow the history that is stored *now*: after importing / loading another history with the same number of
+    iterations into the same object (update_from_dict, load_state) nothing of the previous history may survive in a cache"""
+    import tempfile, os
+    rng = np.random.RandomState(5)
+    mk = lambda sc: [(b, rng.randn() * 0.3, rng.randn(6) * sc) for b in (0.0, 0.3, 0.7, 1.0)]
+    a, b = mk(2.0), mk(7.0)
+    rag = [(bb[0], bb[1], rng.randn(k) * 3.0) for bb, k in zip(b, (6, 4, 9, 5))]
+    for other, how in ((b, "update_from_dict"), (rag, "update_from_dict (other batch sizes)"), (b, "load_state")):
+        sm = build(a)
+        sm.compute_logw_and_logz(1.0)
+        sm.get_history("logl", flat=True)
+        src = build(other)
+        if how.startswith("update"):
+            import copy
+            sm.update_from_dict(copy.deepcopy(src.to_dict()))
+        else:
+            d = tempfile.mkdtemp(prefix="c04_")
+            path = os.path.join(d, "s.state")
+            try:
+                src.save_state(path)
+                sm.load_state(path)
+            except Exception as e:
+                return None if isinstance(e, (AttributeError, TypeError)) else f"save/load of the state manager raised {type(e).__name__}: {e}"
+        try:
+            lw, lz = sm.compute_logw_and_logz(1.0)
+        except Exception as e:
+            return f"after {how}: compute_logw_and_logz raised {type(e).__name__}: {e}"
+        slw, slz, _ = spec(other, 1.0)
+        if len(lw) != len(slw) or np.abs(lw - slw).max() > 1e-6 * (1 + np.abs(slw).max()) or abs(lz - slz) > 1e-6 * (1 + abs(slz)):
+            return f"after {how} into a manager that already served weights, the weights do not follow the history now stored"
+    return None
+
+
 def main():
     p = json.load(open(sys.argv[1]))
     tried = 0
+    for name, fn in (("long-history", long_history), ("restored-history", restored_history)):
+        tried += 1
+        try:
+            r = fn()
+        except Exception as e:
+            r = f"{name}: {type(e).__name__}: {e}"
+        if r:
+            print(json.dumps({"reproduced": True, "detail": r, "tried": tried, "input": {"case": name}}))
+            return
     for b, bf in families():
         tried += 1
         r = check(b, bf)
